@@ -99,7 +99,7 @@ SimNext1 ==
   \/ \E p \in R(Live), step \in R({PREVOTE, PRECOMMIT}) : Timeout(p, step)
 
 MBTStep ==
-  /\ IF Cardinality(Corr) = 1 THEN SimNext1 ELSE SimNext
+  /\ IF Cardinality(Corr) = 1 /\ NV > 1 THEN SimNext1 ELSE SimNext
   /\ steps' = steps + 1
   /\ hist' = Append(hist, [p |-> obs'.p, in |-> obs'.in, out |-> obs'.out,
                            post |-> ProjState(st'[obs'.p]), vc |-> VcDigest(st'[obs'.p])])
